@@ -799,7 +799,9 @@ class UnicodeDammit:
         # Short-circuit if the data is in Unicode to begin with.
         if isinstance(markup, str) or markup == b"":
             self.markup = markup
-            self.unicode_markup = str(markup)
+            # An empty bytestring converts to the empty string, not to
+            # its repr.
+            self.unicode_markup = "" if markup == b"" else str(markup)
             self.original_encoding = None
             return
 
